@@ -509,6 +509,194 @@ func genDedup(g *gen, repo string) {
 	g.write("Dedup.lean", b.String())
 }
 
+// drHandleAcknowledgesByToken recognises the repair of F42 in udp/client/conn.go:
+//
+//	writeMessage:  if token := req.Token(); len(token) > 0 && <req is a request> { cc.requestMessageIDs.Store(string(token), req.MessageID());
+//	               defer cc.requestMessageIDs.Delete(string(token)) }   - before the first write (cc.session.WriteMessage(req))
+//	acknowledgeByResponse(w, m):  guard `m.Code() <= codes.DELETE || len(m.Token()) == 0` → return;
+//	               mid, ok := cc.requestMessageIDs.Load(string(m.Token())); … cc.midHandlerContainer.LoadAndDelete(mid) → elem.handler(w, m)
+//	handle(w, m):  `cc.acknowledgeByResponse(w, m)` is a statement of the function body, preceded only by guards that return, and
+//	               every dispatch by token (tokenHandlerContainer, blockWise.Handle, observationHandler.Handle) comes after it.
+//
+// Neither the function, nor a call of it, nor the table anywhere in the file: false (the shape before the repair).  Any other
+// mixture fails closed.
+func drHandleAcknowledgesByToken(f *ast.File) bool {
+	const table = "cc.requestMessageIDs"
+	hd := funcDecl(f, "Conn", "handle")
+	wm := funcDecl(f, "Conn", "writeMessage")
+	ack := optFuncDecl(f, "Conn", "acknowledgeByResponse")
+	// every method call on the table, by function
+	type use struct{ fn, op string }
+	var uses []use
+	for _, d := range f.Decls {
+		fd, ok := d.(*ast.FuncDecl)
+		if !ok || fd.Body == nil {
+			continue
+		}
+		ast.Inspect(fd.Body, func(n ast.Node) bool {
+			if c, ok := n.(*ast.CallExpr); ok {
+				if sel, ok := c.Fun.(*ast.SelectorExpr); ok && drDotted(sel.X) == table {
+					uses = append(uses, use{fd.Name.Name, sel.Sel.Name})
+				}
+			}
+			return true
+		})
+	}
+	calls := 0
+	ast.Inspect(f, func(n ast.Node) bool {
+		if c, ok := n.(*ast.CallExpr); ok && strings.HasSuffix(drDotted(c.Fun), ".acknowledgeByResponse") {
+			calls++
+		}
+		return true
+	})
+	if ack == nil && calls == 0 && len(uses) == 0 {
+		return false
+	}
+	bad := func(format string, a ...any) {
+		fail("udp/client/conn.go: acknowledgement of a request by the token of its response (repair of F42): "+format, a...)
+	}
+	if ack == nil || calls != 1 {
+		bad("acknowledgeByResponse missing or not called exactly once (%d calls)", calls)
+	}
+	want := map[use]int{{"writeMessage", "Store"}: 1, {"writeMessage", "Delete"}: 1, {"acknowledgeByResponse", "Load"}: 1}
+	got := map[use]int{}
+	for _, u := range uses {
+		got[u]++
+	}
+	for u, n := range got {
+		if want[u] != n {
+			bad("unknown use of requestMessageIDs: %s in %s (x%d)", u.op, u.fn, n)
+		}
+	}
+	for u := range want {
+		if got[u] != 1 {
+			bad("requestMessageIDs.%s missing in %s", u.op, u.fn)
+		}
+	}
+	// writeMessage: the conditional registration, before the first write
+	registered := false
+	for _, st := range wm.Body.List {
+		if len(drCallsIn(st, "cc.session.WriteMessage")) > 0 && !registered {
+			bad("writeMessage writes the request before it registers token -> message ID")
+		}
+		ifs, ok := st.(*ast.IfStmt)
+		if !ok || len(drCallsIn(ifs, table+".Store")) == 0 {
+			continue
+		}
+		init, ok := ifs.Init.(*ast.AssignStmt)
+		if !ok || ifs.Else != nil || len(init.Lhs) != 1 || len(init.Rhs) != 1 || exprStr(init.Lhs[0]) != "token" || exprStr(init.Rhs[0]) != "req.Token()" ||
+			exprStr(ifs.Cond) != "len(token) > 0 && req.Code() >= codes.GET && req.Code() <= codes.DELETE" || len(ifs.Body.List) != 2 {
+			bad("writeMessage: the registration is not `if token := req.Token(); len(token) > 0 && req.Code() >= codes.GET && req.Code() <= codes.DELETE { Store; defer Delete }`")
+		}
+		es, ok1 := ifs.Body.List[0].(*ast.ExprStmt)
+		df, ok2 := ifs.Body.List[1].(*ast.DeferStmt)
+		if !ok1 || !ok2 {
+			bad("writeMessage: the registration block is not `Store; defer Delete`")
+		}
+		sc, ok := es.X.(*ast.CallExpr)
+		if !ok || drDotted(sc.Fun) != table+".Store" || len(sc.Args) != 2 || exprStr(sc.Args[0]) != "string(token)" || exprStr(sc.Args[1]) != "req.MessageID()" {
+			bad("writeMessage: not `requestMessageIDs.Store(string(token), req.MessageID())`")
+		}
+		if drDotted(df.Call.Fun) != table+".Delete" || len(df.Call.Args) != 1 || exprStr(df.Call.Args[0]) != "string(token)" {
+			bad("writeMessage: not `defer requestMessageIDs.Delete(string(token))`")
+		}
+		registered = true
+	}
+	if !registered {
+		bad("writeMessage: registration not found among the statements of the function body")
+	}
+	// acknowledgeByResponse(w, m)
+	ps := drParamNames(ack)
+	if len(ps) != 2 {
+		bad("acknowledgeByResponse takes %d parameters", len(ps))
+	}
+	pw, pm := ps[0], ps[1]
+	if len(ack.Body.List) != 4 {
+		bad("acknowledgeByResponse has %d statements (guard, Load, not-found return, LoadAndDelete + wake)", len(ack.Body.List))
+	}
+	g0, ok0 := ack.Body.List[0].(*ast.IfStmt)
+	ld, ok1 := ack.Body.List[1].(*ast.AssignStmt)
+	g2, ok2 := ack.Body.List[2].(*ast.IfStmt)
+	wk, ok3 := ack.Body.List[3].(*ast.IfStmt)
+	if !ok0 || !ok1 || !ok2 || !ok3 {
+		bad("acknowledgeByResponse: statement kinds")
+	}
+	if exprStr(g0.Cond) != pm+".Code() <= codes.DELETE || len("+pm+".Token()) == 0" || g0.Else != nil || len(g0.Body.List) != 1 || !containsReturn(g0) {
+		bad("acknowledgeByResponse: the guard is not `if m.Code() <= codes.DELETE || len(m.Token()) == 0 { return }`")
+	}
+	if len(ld.Lhs) != 2 || len(ld.Rhs) != 1 || exprStr(ld.Lhs[0]) != "mid" || exprStr(ld.Lhs[1]) != "ok" || exprStr(ld.Rhs[0]) != table+".Load(string("+pm+".Token()))" {
+		bad("acknowledgeByResponse: not `mid, ok := cc.requestMessageIDs.Load(string(m.Token()))`")
+	}
+	if exprStr(g2.Cond) != "!ok" || g2.Else != nil || len(g2.Body.List) != 1 || !containsReturn(g2) {
+		bad("acknowledgeByResponse: not `if !ok { return }`")
+	}
+	wi, okw := wk.Init.(*ast.AssignStmt)
+	if !okw || wk.Else != nil || len(wi.Rhs) != 1 || exprStr(wi.Rhs[0]) != "cc.midHandlerContainer.LoadAndDelete(mid)" || len(wi.Lhs) != 2 ||
+		exprStr(wi.Lhs[0]) != "elem" || exprStr(wk.Cond) != exprStr(wi.Lhs[1]) {
+		bad("acknowledgeByResponse: not `if elem, ok := cc.midHandlerContainer.LoadAndDelete(mid); ok {`")
+	}
+	hc := drCallsIn(wk.Body, "elem.handler")
+	if len(hc) != 1 || len(hc[0].Args) != 2 || exprStr(hc[0].Args[0]) != pw || exprStr(hc[0].Args[1]) != pm || containsReturn(wk) {
+		bad("acknowledgeByResponse: the pending entry is removed without `elem.handler(w, m)` (the writer is not woken)")
+	}
+	for _, disp := range []string{"cc.tokenHandlerContainer.LoadAndDelete", "cc.tokenHandlerContainer.Load", "cc.observationHandler.Handle", "cc.blockWise.Handle"} {
+		if len(drCallsIn(ack, disp)) != 0 {
+			bad("acknowledgeByResponse dispatches the response itself (%s)", disp)
+		}
+	}
+	// handle: the call is a statement of the body; before it only guards that return; every dispatch after it
+	hp := drParamNames(hd)
+	if len(hp) != 2 {
+		bad("handle takes %d parameters", len(hp))
+	}
+	at := -1
+	for i, st := range hd.Body.List {
+		es, ok := st.(*ast.ExprStmt)
+		if !ok {
+			continue
+		}
+		c, ok := es.X.(*ast.CallExpr)
+		if ok && drDotted(c.Fun) == "cc.acknowledgeByResponse" {
+			if len(c.Args) != 2 || exprStr(c.Args[0]) != hp[0] || exprStr(c.Args[1]) != hp[1] {
+				bad("handle: acknowledgeByResponse is not called with handle's own (w, m)")
+			}
+			at = i
+		}
+	}
+	if at < 0 {
+		bad("handle: `cc.acknowledgeByResponse(w, m)` is not a statement of the function body (conditional?)")
+	}
+	dispatches := func(n ast.Node) bool {
+		for _, disp := range []string{"cc.tokenHandlerContainer.LoadAndDelete", "cc.tokenHandlerContainer.Load", "cc.observationHandler.Handle", "cc.blockWise.Handle"} {
+			if len(drCallsIn(n, disp)) != 0 {
+				return true
+			}
+		}
+		return false
+	}
+	for i, st := range hd.Body.List {
+		if i < at {
+			ifs, ok := st.(*ast.IfStmt)
+			if !ok || ifs.Else != nil || dispatches(st) || len(ifs.Body.List) == 0 {
+				bad("handle: a statement before acknowledgeByResponse is not a guard")
+			}
+			if _, ok := ifs.Body.List[len(ifs.Body.List)-1].(*ast.ReturnStmt); !ok {
+				bad("handle: a guard before acknowledgeByResponse does not end in return")
+			}
+		}
+	}
+	after := false
+	for i, st := range hd.Body.List {
+		if i > at && dispatches(st) {
+			after = true
+		}
+	}
+	if !after {
+		bad("handle: no dispatch by token after acknowledgeByResponse")
+	}
+	return true
+}
+
 func genRetransmit(g *gen, repo string) {
 	_, f := parseFile(repo, drConnFile)
 
@@ -673,6 +861,7 @@ func genRetransmit(g *gen, repo string) {
 			fail("doInternal: token handler removes the pending entry without waking the writer")
 		}
 	}
+	ackByToken := drHandleAcknowledgesByToken(f)
 	cfg := udpclient.DefaultConfig
 	var b strings.Builder
 	b.WriteString("namespace CoapVerif.Generated.Retransmit\n\n")
@@ -687,6 +876,7 @@ func genRetransmit(g *gen, repo string) {
 	fmt.Fprintf(&b, "/-- handleSpecialMessages removes the pending entry keyed by the received message's MID (AST) -/\ndef recvRemovesByMID : Bool := %s\n", drLeanBool(ackRemoves))
 	fmt.Fprintf(&b, "/-- prepareWriteMessage stores a clone and registers the removal by MID that writeMessage defers (AST) -/\ndef storesClone : Bool := %s\ndef deferredRemovalByMID : Bool := %s\n", drLeanBool(storesClone), drLeanBool(deferredRemoval && deferClose))
 	fmt.Fprintf(&b, "/-- doInternal: a response reaching the token handler removes the request's pending entry and wakes the writer (RFC 7252 5.2.2) (AST) -/\ndef responseWakesWriter : Bool := %s\n", drLeanBool(respWakes))
+	fmt.Fprintf(&b, "/-- Conn.handle acknowledges a confirmable request by the TOKEN of its response before it dispatches the response by token - doInternal's handler, an observation, the block-wise layer, nobody - (acknowledgeByResponse: requestMessageIDs, written by writeMessage for as long as it runs, gives the message ID; pending entry removed, writer woken; RFC 7252 5.2.2; repair of F42). false = no such step and no such table (the shape before the repair); anything else fails closed (AST) -/\ndef responseAcknowledgesByToken : Bool := %s\n", drLeanBool(ackByToken))
 	// options.WithTransmission: each Apply method writes the three parameters verbatim; the servers copy them into the
 	// configuration of the connections they create
 	_, fo := parseFile(repo, "options/udpOptions.go")
